@@ -23,7 +23,9 @@ RULE = ("Hypothesis generates a scenario (entry kinds; home / $topdir/.Trash/$ui
         "trashed or untouched, no stray .trashinfo, no orphan payload, frame unchanged). "
         "Non-trivial: the fault hits an operation of the run; distinct by (scenario class, "
         "operation kind, errno, mode, outcome).")
-ASSUMPTIONS = ["errors are injected at the Python os.* boundary; errno/operation combinations the "
+ASSUMPTIONS = ["directory-wide persistence is not combined with EEXIST (retrying another name is the "
+               "designed reaction to 'this name exists')",
+               "errors are injected at the Python os.* boundary; errno/operation combinations the "
                "kernel never produces are included because the statement says 'whatever error'",
                "when the failing operation is the directory scan of shutil's cross-device fallback, "
                "only termination + no-loss are required"]
@@ -49,6 +51,10 @@ def strategy_(draw, tier):
     # persistent faults hit the same (operation, path) again - or, scope "dir", the same operation
     # on EVERY path of that directory (a full / read-only / name-limited directory)
     base["scope"] = draw(st.sampled_from(["path", "dir"]))
+    if base["errno"] == "EEXIST":
+        # "this name exists" for EVERY name of a directory is not an answer a file system gives;
+        # trying the next name is the designed reaction to EEXIST, so that combination is not judged
+        base["scope"] = "path"
     base["pairs"] = draw(st.lists(st.tuples(st.integers(1, 200), st.integers(1, 200),
                                             st.sampled_from(ERRNOS)), max_size=3))
     return base
